@@ -196,12 +196,15 @@ func processFile(filePath string, ctxt *processors.Context, checkOnly bool) erro
 		lines = append(lines, string(line))
 	}
 
-	if !checkStandardHeader(lines) {
+	if checkStandardHeader(lines) {
+		// strip the header (and the empty line that follows it), it is added back below
+		lines = lines[min(3, len(lines)):]
+	} else {
 		logger.Info().Msgf("file %s does not have standard header", filename)
-		// prepend the standard header
-		lines = append([]string{regexAssemblyStandardHeader}, lines...)
 	}
-	lines = formatEndOfFile(lines)
+	// the header must always be followed by an empty line, even when there is no other content
+	lines = append([]string{regexAssemblyStandardHeader}, trimTrailingEmptyLines(lines)...)
+	lines = append(lines, "")
 
 	newContents := []byte(strings.Join(lines, "\n"))
 	if checkOnly {
@@ -317,11 +320,22 @@ func formatEndOfFile(lines []string) []string {
 }
 
 func checkStandardHeader(lines []string) bool {
+	if len(lines) == 2 {
+		lines = append(lines, "")
+	}
 	if len(lines) >= 3 &&
 		fmt.Sprintf("%s\n%s\n%s", lines[0], lines[1], lines[2]) == regexAssemblyStandardHeader {
 		return true
 	}
 	return false
+}
+
+func trimTrailingEmptyLines(lines []string) []string {
+	eof := len(lines)
+	for eof > 0 && lines[eof-1] == "" {
+		eof--
+	}
+	return lines[:eof]
 }
 
 // findUpperCaseCharacterClassOnIgnoreCaseFlag checks if the file contains uppercase letters when the ignore-case flag is set
